@@ -31,3 +31,229 @@ Theorem content_brackets_balanced : forall inst i x s,
   content_ctx s -> emits x (snd (exec_instr ex_fixed inst i x)) s s.
 Proof. intros. now apply exec_instr_emits. Qed.
 Print Assumptions content_brackets_balanced.
+
+
+(* ================================================================================================
+   C13, second half: the notifications are a COMPLETE account of execution.
+   trace_completeb (TraceComplete.v) is an executable checker over the canonical trace of a run, which
+   contains, after each call of step(), the result code (TRet) and the configuration (TCfg).  It demands:
+   at most one event report per step, first; at most one micro-step bracket per step; after a step with a
+   bracket: exits strictly descending and entries strictly ascending in document order (so nothing twice),
+   exited states were active, entered ones were not (after the exits), new configuration = (old - exited) +
+   entered, in document order; after a step without a bracket the configuration is unchanged; a stable
+   notice is the only notification of its step, which returns MACROSTEPPED, and every MACROSTEPPED step has
+   one; between two stable notices an event or a micro-step was reported; IDLE is only returned while the
+   last stable notice is outstanding; steps reporting an event or micro-step return MICROSTEPPED.
+   sid_pos c : document position of a state id.
+   Conditions (boolean, on the flat chart c = flatten late t):
+     sids_distinctb c   -- state ids identify states (the notifications carry ids only);
+     raise_names_okb c  -- no <raise event="">: the MODEL of step() takes an unnamed head of the internal
+                           queue for an empty queue and idles (the C++ drops it and goes on; outside the fragment).
+   Each is shown necessary by a witness below.
+   ================================================================================================ *)
+From V Require Import SetLemmas TraceComplete TraceCompleteBase TraceCompleteMicro TraceCompleteStep TraceCompleteRun
+     TraceCompleteWitness TraceCompleteFast TraceCompleteFlatten.
+
+(* U: for EVERY document tree, binding, engine variant (pinned or repaired LargeMicroStep), executor variant
+   (pinned or repaired), external event list and step bound, the trace of the modelled large engine passes the
+   completeness checker.  Not covered: invocations, cancellation (never set in these runs), delayed sends. *)
+Theorem large_trace_complete : forall lv xv late t evs fuel,
+  sids_distinctb (flatten late t) = true -> raise_names_okb (flatten late t) = true ->
+  trace_completeb (sid_pos (flatten late t)) (fst (run_large lv xv late t evs fuel)) = true.
+Proof. exact run_large_complete_tree. Qed.
+Print Assumptions large_trace_complete.
+
+(* U: the same for the fast engine *)
+Theorem fast_trace_complete : forall xv late t evs fuel,
+  sids_distinctb (flatten late t) = true -> raise_names_okb (flatten late t) = true ->
+  trace_completeb (sid_pos (flatten late t)) (fst (run_fast xv late t evs fuel)) = true.
+Proof. exact run_fast_complete_tree. Qed.
+Print Assumptions fast_trace_complete.
+
+(* U: the same for ANY flat chart (not necessarily the image of a document) without dangling state indices
+   and with an ascending root completion (report_okb); both hold of every flatten late t *)
+Theorem large_trace_complete_flat : forall lv xv c evs fuel,
+  report_okb c = true -> raise_names_okb c = true ->
+  trace_completeb (sid_pos c)
+    (rev (x_out (snd (run_loop c lstate (large_step lv xv c) l_cfg fuel l_pristine x_init evs)))) = true.
+Proof. exact large_run_complete. Qed.
+Print Assumptions large_trace_complete_flat.
+
+Theorem fast_trace_complete_flat : forall xv c evs fuel,
+  report_okb c = true -> raise_names_okb c = true ->
+  trace_completeb (sid_pos c)
+    (rev (x_out (snd (run_loop c lstate (fast_step xv c) l_cfg fuel l_pristine x_init evs)))) = true.
+Proof. exact fast_run_complete. Qed.
+Print Assumptions fast_trace_complete_flat.
+
+Theorem flatten_is_report_ok : forall late t, sids_distinctb (flatten late t) = true -> report_okb (flatten late t) = true.
+Proof. exact flatten_report_okb. Qed.
+Print Assumptions flatten_is_report_ok.
+
+(* U, no condition on the chart at all: one micro-step of LargeMicroStep (every variant), from ANY engine
+   state.  Between beforeMicroStep and afterMicroStep the notifications other than those of executable
+   content are EXACTLY micro_skel: an exit bracket for each state of the exit set in reverse document order,
+   a bracket for each selected transition in document order, an entry bracket for each proper state of the
+   entry set that is not active after the exits, ascending, each followed by the <initial>/<history>
+   transitions of its children that are in the transition set; and the configuration afterwards is
+   (configuration - exit set) + those entered. *)
+Theorem microstep_reports_delta : forall v xv c l x targets exitset transset initial_step,
+  let r := microstep v xv c l x targets exitset transset initial_step in
+  let ts := snd (ms_entry v c l targets exitset transset initial_step) in
+  let cfg1 := remove_all (rev exitset) (l_cfg l) in
+  let en := entered_of c (set_diff (fst (ms_entry v c l targets exitset transset initial_step)) cfg1) in
+  exists new,
+    x_out (snd r) = rev new ++ x_out x /\
+    skeleton new = micro_skel c (rev exitset) ts en ++ [TMsE] /\
+    xb_of new = map (sid_of c) (rev exitset) /\ xe_of new = map (sid_of c) (rev exitset) /\
+    eb_of new = map (sid_of c) en /\ ee_of new = map (sid_of c) en /\
+    tb_of new = map (vid_of c) (plain_trans c ts ++ flat_map (pseudo_trans c ts) en) /\
+    l_cfg (fst r) = insert_all en cfg1 /\
+    (forall i, In i (l_cfg (fst r)) <-> (In i (l_cfg l) /\ ~ In i exitset) \/ In i en).
+Proof. exact microstep_reports_delta_lemma. Qed.
+Print Assumptions microstep_reports_delta.
+
+(* U: ... and in that account nothing occurs twice and the order is the execution order, whenever target set
+   and exit set are ascending lists (they always are: they are built by sorted insertion) *)
+Theorem microstep_delta_ordered : forall v c l targets exitset transset initial_step,
+  ssorted targets -> ssorted exitset ->
+  let cfg1 := remove_all (rev exitset) (l_cfg l) in
+  let en := entered_of c (set_diff (fst (ms_entry v c l targets exitset transset initial_step)) cfg1) in
+  ssorted (rev (rev exitset)) /\ ssorted en /\ (forall i, In i en -> ~ In i cfg1) /\ NoDup (rev exitset) /\ NoDup en.
+Proof. exact microstep_delta_ordered_lemma. Qed.
+Print Assumptions microstep_delta_ordered.
+
+(* U: the transition brackets of the TAKE_TRANSITIONS phase contain no transition twice and every selected
+   transition proper (the selection is an ascending list) *)
+Theorem microstep_transitions_once : forall v c l targets exitset transset initial_step,
+  ssorted transset ->
+  let ts := snd (ms_entry v c l targets exitset transset initial_step) in
+  NoDup (plain_trans c ts) /\
+  (forall ti, In ti transset -> is_pseudo_trans c ti = false -> In ti (plain_trans c ts)).
+Proof. exact microstep_transitions_once_lemma. Qed.
+Print Assumptions microstep_transitions_once.
+
+(* U: processed events.  dequeues l x (TraceComplete.v) is the decision of step() in front of the queues;
+   run_deq collects it along the run.  The event reports of a run are exactly the names of the dequeued
+   events, once each, in dequeue order ... *)
+Theorem large_events_reported : forall lv xv late t evs fuel,
+  sids_distinctb (flatten late t) = true -> raise_names_okb (flatten late t) = true ->
+  ev_of (fst (run_large lv xv late t evs fuel)) =
+  flat_map deq_names (run_deq (large_step lv xv (flatten late t)) (flatten late t) fuel l_pristine x_init evs).
+Proof. exact run_large_events_tree. Qed.
+Print Assumptions large_events_reported.
+
+Theorem fast_events_reported : forall xv late t evs fuel,
+  sids_distinctb (flatten late t) = true -> raise_names_okb (flatten late t) = true ->
+  ev_of (fst (run_fast xv late t evs fuel)) =
+  flat_map deq_names (run_deq (fast_step xv (flatten late t)) (flatten late t) fuel l_pristine x_init evs).
+Proof. exact run_fast_events_tree. Qed.
+Print Assumptions fast_events_reported.
+
+(* ... and that decision is what happens to the queues: from every state a run reaches (with any further
+   external events handed in), the step takes exactly the head dequeues names -- the internal queue first, the
+   external one only when the internal one is empty (and, by definition of dequeues, the stable notice is out)
+   -- and otherwise only appends to the queues *)
+Theorem large_step_takes_the_reported_event : forall lv xv late t evs fuel more,
+  sids_distinctb (flatten late t) = true -> raise_names_okb (flatten late t) = true ->
+  let c := flatten late t in
+  let r := run_loop c lstate (large_step lv xv c) l_cfg fuel l_pristine x_init evs in
+  let x := fold_left (fun x e => raise_ext e x) more (snd r) in
+  queue_effect (dequeues (fst r) x) x (snd (fst (large_step lv xv c (fst r) x))).
+Proof. exact large_reached_step_queues. Qed.
+Print Assumptions large_step_takes_the_reported_event.
+
+Theorem fast_step_takes_the_reported_event : forall xv late t evs fuel more,
+  sids_distinctb (flatten late t) = true -> raise_names_okb (flatten late t) = true ->
+  let c := flatten late t in
+  let r := run_loop c lstate (fast_step xv c) l_cfg fuel l_pristine x_init evs in
+  let x := fold_left (fun x e => raise_ext e x) more (snd r) in
+  queue_effect (dequeues (fst r) x) x (snd (fst (fast_step xv c (fst r) x))).
+Proof. exact fast_reached_step_queues. Qed.
+Print Assumptions fast_step_takes_the_reported_event.
+
+(* U: an external event is only taken when the internal queue is empty, no eventless selection is pending and
+   the stable notice of the macrostep has been issued (l_stable is what the checker tracks as k_stable) *)
+Theorem dequeues_ext_needs_stable : forall l x e,
+  dequeues l x = DeqExt e -> l_stable l = true /\ x_iq x = [] /\ l_spont l = false /\ hd_error (x_eq x) = Some e.
+Proof. exact dequeues_ext_needs_stable_lemma. Qed.
+Print Assumptions dequeues_ext_needs_stable.
+
+(* U: executed elements (repaired executor): executing one element, successfully or not, in any datamodel
+   state, appends its own "before", then only content reports of nested elements, then its own "after" *)
+Theorem element_reported_once : forall inst i x,
+  exists mid, x_out (snd (exec_instr ex_fixed inst i x)) = TCe (instr_vid i) :: rev mid ++ TCb (instr_vid i) :: x_out x /\
+              skeleton mid = [].
+Proof. exact element_reported_once_lemma. Qed.
+Print Assumptions element_reported_once.
+
+(* non-vacuity: a document with a <parallel> state and nested compounds satisfies the conditions; its run
+   (3 micro-steps, 2 events, a stable notice, completion) is accepted; damaged copies of its trace (an exit
+   dropped, an entry dropped, the stable notice dropped) are rejected.  TraceCompleteWitness.v has more. *)
+Theorem completeness_nonvacuous :
+  sids_distinctb tcw_chart = true /\ raise_names_okb tcw_chart = true /\
+  trace_completeb (sid_pos tcw_chart) tcw_trace = true /\
+  length (filter (fun t => match t with TMsB => true | _ => false end) tcw_trace) = 3%nat /\
+  ev_of tcw_trace = [[101%N]; [102%N]] /\
+  trace_completeb (sid_pos tcw_chart) (tcw_drop (fun t => match t with TXb 3 | TXe 3 => true | _ => false end) tcw_trace) = false /\
+  trace_completeb (sid_pos tcw_chart) (tcw_drop (fun t => match t with TEb 7 | TEe 7 => true | _ => false end) tcw_trace) = false /\
+  trace_completeb (sid_pos tcw_chart) (tcw_drop (fun t => match t with TStable => true | _ => false end) tcw_trace) = false.
+Proof. exact completeness_nonvacuous_lemma. Qed.
+Print Assumptions completeness_nonvacuous.
+
+(* REFUTED (finding against the property text, both engines share the code path): states active when the
+   interpreter completes are exited -- their <onexit> content runs and is reported inside the completion
+   bracket -- but no exit is reported for them, and the configuration reported after FINISHED still lists them *)
+Theorem completion_exits_unreported_refuted :
+  exists t evs fuel s e,
+    let c := flatten false t in
+    let tr := fst (run_large lg_fixed ex_fixed false t evs fuel) in
+    report_okb c = true /\ raise_names_okb c = true /\
+    memN s (eb_of tr) = true /\
+    tcw_has (fun t => match t with TRet 0 => true | _ => false end) tr = true /\
+    tcw_has (fun t => match t with TCb i => (i =? e)%N | _ => false end) tr = true /\
+    memN s (xb_of tr) = false /\
+    last tr (TRet 0) = TCfg [0%N; s].
+Proof. exact completion_exits_unreported_refuted_lemma. Qed.
+Print Assumptions completion_exits_unreported_refuted.
+
+(* REFUTED (finding against "once per completed macrostep"): the macrostep that ends in a top-level final
+   state gets no stable-configuration notice *)
+Theorem final_macrostep_no_stable_refuted :
+  exists t evs fuel,
+    let tr := fst (run_large lg_fixed ex_fixed false t evs fuel) in
+    tcw_has (fun t => match t with TMsE => true | _ => false end) tr = true /\
+    tcw_has (fun t => match t with TRet 0 => true | _ => false end) tr = true /\
+    tcw_has (fun t => match t with TStable => true | _ => false end) tr = false.
+Proof. exact final_macrostep_no_stable_refuted_lemma. Qed.
+Print Assumptions final_macrostep_no_stable_refuted.
+
+(* the side conditions cannot be dropped *)
+Theorem distinct_ids_needed_refuted :
+  exists t evs fuel,
+    let c := flatten false t in
+    sids_distinctb c = false /\ refs_in_rangeb c = true /\ ascb (fs_completion (st c 0)) = true /\
+    raise_names_okb c = true /\
+    trace_completeb (sid_pos c) (fst (run_large lg_fixed ex_fixed false t evs fuel)) = false.
+Proof. exact distinct_ids_needed_refuted_lemma. Qed.
+Print Assumptions distinct_ids_needed_refuted.
+
+Theorem named_raise_needed_refuted :
+  exists t evs fuel,
+    let c := flatten false t in
+    report_okb c = true /\ raise_names_okb c = false /\
+    trace_completeb (sid_pos c) (fst (run_large lg_fixed ex_fixed false t evs fuel)) = false.
+Proof. exact named_raise_needed_refuted_lemma. Qed.
+Print Assumptions named_raise_needed_refuted.
+
+Theorem refs_in_range_needed_refuted :
+  exists c, sids_distinctb c = true /\ refs_in_rangeb c = false /\ ascb (fs_completion (st c 0)) = true /\
+            raise_names_okb c = true /\ trace_completeb (sid_pos c) (tcw_run c) = false.
+Proof. exact refs_in_range_needed_refuted_lemma. Qed.
+Print Assumptions refs_in_range_needed_refuted.
+
+Theorem sorted_root_completion_needed_refuted :
+  exists c, sids_distinctb c = true /\ refs_in_rangeb c = true /\ ascb (fs_completion (st c 0)) = false /\
+            raise_names_okb c = true /\ trace_completeb (sid_pos c) (tcw_run c) = false.
+Proof. exact sorted_root_completion_needed_refuted_lemma. Qed.
+Print Assumptions sorted_root_completion_needed_refuted.
